@@ -77,6 +77,11 @@ def structures(tier, seed):
     for reg in ({"X": ["dx_c"], "Y": ["dy_c"], "Z": ["dz_c"], "XY": ["a_cc"], "YZ": ["yz_cc"]}, {"X": ["dx_c"], "Y": ["dy_c"], "Z": ["dz_c"], "XY": ["a_cc"]},
                 {"X": ["dx_c", "dx_l"], "Y": ["dy_c"], "Z": ["dz_c"]}, {"XY": ["a_cc", "a_lc"], "YZ": ["yz_cc"], "X": ["dx_l"], "Z": ["dz_c"]}):
         out.append(dict(part="metric", sid="metric;" + C10.reg_sid({tuple(k): v for k, v in reg.items()}), reg=reg))
+    # binding of the dummy names of a multi-argument signature to the real axes (by order of first appearance): one outcome whatever
+    # the iteration order of any set created on the way
+    for k, (dummies, axis) in enumerate([([("Z",), ("X", "Y")], [("depth",), ("lon", "lat")]), ([("A", "B"), ("C", "D", "A")], [("lon", "lat"), ("depth", "time", "lon")]),
+                                          ([("X",), ("Y",), ("Z", "W")], [("a",), ("b",), ("c", "d")]), ([("X", "Y")], [("lat", "lon")])]):
+        out.append(dict(part="bind", sid=f"bind;{k}", dummies=[list(d) for d in dummies], axis=[list(a) for a in axis]))
     out.append(dict(part="canary", sid="canary;order-dependent-function"))
     # [bounded] the same link table / width mapping LISTED in different orders (faces, axes inside a face, keys of boundary_width), on
     # the real constructor, real xarray and real pad: the results are compared with each other, corners included
@@ -228,6 +233,38 @@ def run_equiv(s):
             "counts": {"order_pairs_compared": r["paths"]}}
 
 
+def run_bind(s):
+    """_identify_dummy_axes_with_real_axes under demonic set iteration: the mapping is the positional one (first appearance)"""
+    mods = util.xgcm_modules()
+    GU = mods["grid_ufunc"]
+    dummies = [tuple(d) for d in s["dummies"]]
+    axis = [tuple(a) for a in s["axis"]]
+    want = {}
+    for dn, rn in zip([x for arg in dummies for x in arg], [x for arg in axis for x in arg]):
+        want.setdefault(dn, rn)
+    covers = {}
+
+    def body():
+        try:
+            m = dict(GU._identify_dummy_axes_with_real_axes(dummies, axis))
+        except (symx.EngineUnsupported, symx.InfeasiblePath, symx.PathAbort):
+            raise
+        except Exception as e:  # noqa
+            symx.oblige("binding-is-by-order-of-first-appearance-for-every-set-order", False, detail=f"{type(e).__name__}: {e}")
+            return
+        covers["bind"] = 1
+        symx.oblige("binding-is-by-order-of-first-appearance-for-every-set-order", m == want, detail=f"{m} vs {want}; set orders {dict(symx.ctx().ghost.get('set-order', {}))}")
+    with util.patched((GU, "set", util.DemonicSet), (GU, "frozenset", C10.DemonicFrozenSet)):
+        rep = symx.explore(body, s["sid"])
+    obs = []
+    for name, ob in rep.merged().items():
+        rec = {"fn": "grid_ufunc._identify_dummy_axes_with_real_axes", "clause": name, "status": ob.status, "time": ob.time, "detail": ob.detail}
+        if ob.status == "failed":
+            rec["witness"] = {"part": "bind", "dummies": s["dummies"], "axis": s["axis"]}
+        obs.append(rec)
+    return result(obs, s, rep, covers)
+
+
 def run_parse(s):
     mods = util.xgcm_modules()
     s14 = s["s14"]
@@ -312,7 +349,7 @@ def run_canary(s):
 
 
 def run_structure(s):
-    return {"pad": run_pad, "equiv": run_equiv, "parse": run_parse, "metric": run_metric, "canary": run_canary, "native-listing": run_native_listing}[s["part"]](s)
+    return {"pad": run_pad, "equiv": run_equiv, "parse": run_parse, "metric": run_metric, "canary": run_canary, "native-listing": run_native_listing, "bind": run_bind}[s["part"]](s)
 
 
 REQUIRED_COVERS = ["padded", "parsed", "metric", "equiv"]
@@ -335,6 +372,14 @@ def _multi_seed(code, seeds=range(24)):
 def replay(ob):
     wit = ob.get("witness") or {}
     part = wit.get("part")
+    if part == "bind":
+        code = f"""
+import xgcm.grid_ufunc as GU
+print(sorted(dict(GU._identify_dummy_axes_with_real_axes({[tuple(d) for d in wit['dummies']]!r}, {[tuple(a) for a in wit['axis']]!r})).items()))
+"""
+        outs = _multi_seed(code)
+        distinct = sorted(outs)  # _multi_seed maps each distinct output to the seeds that produced it
+        return {"confirmed": len(distinct) > 1, "text": f"_identify_dummy_axes_with_real_axes({wit['dummies']}, {wit['axis']}) in fresh interpreters under 24 hash seeds: {len(distinct)} distinct outcome(s): {distinct[:3]}"}
     if part == "native-listing":
         import numpy as np
         from harness import native_pad as NP
